@@ -1852,7 +1852,13 @@ fn verify_nsec(
 
     // For a no data response with a directly matching NSEC record, we just need to verify the NSEC
     // type set does not contain the query type or CNAME.
-    if let Some((_, nsec_data)) = nsecs.iter().find(|(name, _)| &query.name == *name) {
+    //
+    // An NSEC record from the parent side of a zone cut ("ancestor delegation" NSEC) can only be
+    // used to deny the existence of a DS RRset at its owner name (RFC 6840 section 4.1).
+    if let Some((_, nsec_data)) = nsecs.iter().find(|(name, nsec_data)| {
+        &query.name == *name
+            && (query.query_type == RecordType::DS || !is_ancestor_delegation_nsec(nsec_data))
+    }) {
         return if nsec_data.type_set().contains(query.query_type)
             || nsec_data.type_set().contains(RecordType::CNAME)
         {
@@ -2049,9 +2055,27 @@ fn find_nsec_covering_record<'a>(
     nsecs.iter().copied().find(|(nsec_name, nsec_data)| {
         let next_domain_name = nsec_data.next_domain_name();
 
+        // An NSEC record from the parent side of a zone cut, or one with the DNAME bit set, says
+        // nothing about names below its owner name (RFC 6840 section 4.1).
+        if (is_ancestor_delegation_nsec(nsec_data)
+            || nsec_data.type_set().contains(RecordType::Unknown(DNAME_TYPE_CODE)))
+            && nsec_name.zone_of(test_name)
+        {
+            return false;
+        }
+
         test_name > nsec_name
             && (test_name < next_domain_name || Some(next_domain_name) == soa_name)
     })
+}
+
+/// The type code of DNAME (RFC 6672), which has no `RecordType` variant of its own.
+const DNAME_TYPE_CODE: u16 = 39;
+
+/// Returns true for an "ancestor delegation" NSEC record: one generated by the parent zone at a
+/// delegation point, which has the NS bit set and the SOA bit clear (RFC 6840 section 4.1).
+fn is_ancestor_delegation_nsec(nsec: &NSEC) -> bool {
+    nsec.type_set().contains(RecordType::NS) && !nsec.type_set().contains(RecordType::SOA)
 }
 
 /// Logs a debug message and yields a Proof type for return
